@@ -118,7 +118,7 @@ fn alternatives(msg: &str, received: &str, accepted: &[String], out: &mut Vec<(&
     }
 }
 
-fn check_json(msg: &str, r0: &Report, p: &Ov) -> Vec<(&'static str, String)> {
+pub(crate) fn check_json(msg: &str, r0: &Report, p: &Ov) -> Vec<(&'static str, String)> {
     let mut out = vec![];
     let path = render_path(&r0.loc);
     if r0.loc.is_empty() {
@@ -190,7 +190,7 @@ fn check_json(msg: &str, r0: &Report, p: &Ov) -> Vec<(&'static str, String)> {
     out
 }
 
-fn check_qp(msg: &str, r0: &Report) -> Vec<(&'static str, String)> {
+pub(crate) fn check_qp(msg: &str, r0: &Report) -> Vec<(&'static str, String)> {
     let mut out = vec![];
     let path = qp_path(&r0.loc);
     if !r0.loc.is_empty() && !msg.contains(&format!("`{path}`")) {
